@@ -77,3 +77,9 @@ func init() {
 }
 
 func nil2str(p *Path, fn *ssa.Function, a []Value) Value { return p.callSSA(fn, a, nil, nil) }
+
+func init() {
+	// the threshold monitor only feeds metrics from a real-time ticker: not started under the engine
+	reg("(*"+modPath+"/internal/metrics.ThresholdMonitor).Start", func(p *Path, fn *ssa.Function, a []Value) Value { return nil })
+	reg("(*"+modPath+"/internal/metrics.ThresholdMonitor).Stop", func(p *Path, fn *ssa.Function, a []Value) Value { return nil })
+}
